@@ -220,7 +220,8 @@ def judge(ctx, case, mode, obs, errors):
         if m:
             evt, sta = int(m.group(1)), int(m.group(2))
             what = f"reactor thread died: InvalidEventError Evt{evt} in Sta{sta} ({mode} schedule)"
-            if mode == "racy" and evt == 18:
+            if mode in ("racy", "peer") and evt == 18:
+                # (peer mode lets the clock fire at any point of an iteration too)
                 ctx.fail("race:artim-expiry-processed-after-stop", what, case)
             elif mode == "racy" and evt not in TRANSPORT_EVTS:
                 ctx.fail("race:local-primitive-meets-stale-state", what, case)
@@ -249,17 +250,18 @@ def check(ctx, requestor, mode, pending):
 
 
 def flush(ctx, pending):
-    # sync schedules must satisfy the hypothesis of the Lean theorem C05_defined_partial (runOk): then the theorem
-    # says the model's reactor survives them, and the lockstep comparison carries that over to the real one
-    sync = [c for c, _ in pending if c[3] == "sync"]
+    # sync and duplex schedules must satisfy the hypothesis of the Lean theorem C05_defined_partial (runOk: primitives at
+    # quiescent points, or streamed P-DATA requests in Sta6): then the theorem says the model's reactor survives them,
+    # and the lockstep comparison carries that over to the real one
+    sync = [c for c, _ in pending if c[3] in ("sync", "duplex")]
     oks = ctx.lean([["dul.runok", c[1], c[2]] for c in sync])
-    n_ok = 0
     for c, ok in zip(sync, oks):
-        if ok == "T" or ok is True:
-            n_ok += 1
-        else:
-            ctx.diff(c, "generated as sync-admissible", "Lean runOk = false", "sync schedule outside the theorem's hypothesis")
-    ctx.extra["sync_schedules_satisfying_runOk"] = ctx.extra.get("sync_schedules_satisfying_runOk", 0) + n_ok
+        if not (ok == "T" or ok is True):
+            ctx.diff(c, f"generated as {c[3]}-admissible", "Lean runOk = false", f"{c[3]} schedule outside the theorem's hypothesis")
+    ctx.extra["sync_schedules_satisfying_runOk"] = ctx.extra.get("sync_schedules_satisfying_runOk", 0) + sum(
+        1 for c, ok in zip(sync, oks) if c[3] == "sync" and (ok == "T" or ok is True))
+    ctx.extra["duplex_schedules_satisfying_runOk"] = ctx.extra.get("duplex_schedules_satisfying_runOk", 0) + sum(
+        1 for c, ok in zip(sync, oks) if c[3] == "duplex" and (ok == "T" or ok is True))
     reps = ctx.lean([["dul.run", c[1], c[2]] for c, _ in pending])
     for (case, obs), rep in zip(pending, reps):
         if rep == "ERR:args":
